@@ -211,7 +211,7 @@ def colNamesDict (c2s : List (String × Stype)) (target : Option String) : List 
     else match dictGet d p.2 with
       | none => d ++ [(p.2, [p.1])]
       | some cols => dictSet d p.2 (cols ++ [p.1])) []
-  grouped.map fun (s, cols) => (s, sortNames cols)
+  grouped.map fun g => (g.1, sortNames g.2)
 
 namespace Conv
 
@@ -280,6 +280,10 @@ end Conv
 
 /-! ### specification layer of the converter -/
 
+/-- the non-target columns of stype `s`, in `col_to_stype` order -/
+def groupOf (c2s : List (String × Stype)) (target : Option String) (s : Stype) : List String :=
+  (c2s.filter fun p => decide (some p.1 ≠ target) && decide (p.2 = s)).map (·.1)
+
 /-- what `_merge_feat` does to a name table: one step … -/
 def mergeNamesStep (names : List (Stype × List String)) (s : Stype) : List (Stype × List String) :=
   if s.parent = s then names else
@@ -314,6 +318,21 @@ structure CallOK (cv : Conv F) (df : DF L F) (n : Nat) : Prop where
     (g.1.useEmbedding = true → ∃ w, ∀ cell ∈ col.cells, (encodeCell (cv.cfg c) (cv.stypeOf c) cell).length = w)
   target : ∀ t col, cv.target = some t → df.col? t = some col →
     col.cells.length = n ∧ ColWF (cv.cfg t) (cv.stypeOf t) col.cells
+
+/-- The typed domain of converting frame `df` (of ≥ 1 rows) with converter `cv`: distinct column names in
+    `col_to_stype`, no token-valued column, at least one feature column; every feature column is in the frame
+    with one cell per row inside the column domain `ColWF`, embedding-kind columns have a uniform width; and
+    the target column, if the frame has it, has one cell per row inside `ColWF`. -/
+structure ConvFrameOK (cv : Conv F) (df : DF L F) : Prop where
+  npos : 0 < df.numRows
+  c2s_nodup : (cv.colToStype.map (·.1)).Nodup
+  no_tok : ∀ p ∈ cv.colToStype, p.2 ≠ .text_tokenized
+  feature : ∃ p ∈ cv.colToStype, some p.1 ≠ cv.target
+  cols : ∀ p ∈ cv.colToStype, some p.1 ≠ cv.target → ∃ col, df.col? p.1 = some col ∧
+    col.cells.length = df.numRows ∧ ColWF (cv.cfg p.1) p.2 col.cells ∧
+    (p.2.useEmbedding = true → ∃ w, ∀ cell ∈ col.cells, (encodeCell (cv.cfg p.1) p.2 cell).length = w)
+  target : ∀ t col, cv.target = some t → df.col? t = some col →
+    col.cells.length = df.numRows ∧ ColWF (cv.cfg t) (cv.stypeOf t) col.cells
 
 /-! ### Dataset.materialize -/
 
